@@ -770,6 +770,18 @@ class Interp(object):
         return terms or None
 
     def st_For(self, st, s, ctx):
+        # for a, b in numpy.ndindex(n, m): ...   is   for a in range(n): for b in range(m): ...   (row-major order)
+        if isinstance(st.iter, ast.Call) and norm_text(st.iter.func).split(".")[-1] == "ndindex" and isinstance(st.target, ast.Tuple) \
+                and len(st.target.elts) == len(st.iter.args) >= 1 and all(isinstance(t_, ast.Name) for t_ in st.target.elts) \
+                and not st.iter.keywords and not st.orelse and not any(isinstance(a_, (ast.Tuple, ast.Starred)) for a_ in st.iter.args):
+            body = st.body
+            for t_, a_ in reversed(list(zip(st.target.elts, st.iter.args))):
+                rng = ast.Call(func=ast.Name(id="range", ctx=ast.Load()), args=[a_], keywords=[])
+                loop = ast.For(target=t_, iter=rng, body=body, orelse=[])
+                ast.copy_location(loop, st)
+                ast.fix_missing_locations(loop)
+                body = [loop]
+            return self.st_For(body[0], s, ctx)
         it = self.ev(st.iter, s.env, ctx)
         fq = ctx.finfo.fq
         ctx.loop_depth += 1
@@ -1003,6 +1015,9 @@ class Interp(object):
         if isinstance(it, tuple) and len(it) == 2 and it[0] == "enumerate":
             idx = Rat.sym("%s#" % tag, ("int", "loopvar"))
             return (idx, self.elem(it[1], idx))
+        if isinstance(it, tuple) and len(it) == 2 and it[0] == "zip" and isinstance(it[1], tuple):
+            idx = Rat.sym("%s#" % tag, ("int", "loopvar"))
+            return tuple(self.elem(x, idx) for x in it[1])
         idx = Rat.sym("%s#" % tag, ("int", "loopvar"))
         return self.elem(it, idx)
 
@@ -1681,6 +1696,8 @@ def _itkey(it):
         return (it.lo, it.hi, it.step)
     if isinstance(it, tuple) and it and it[0] == "enumerate":
         return ("enumerate", _itkey(it[1]))
+    if isinstance(it, tuple) and len(it) == 2 and it[0] == "zip" and isinstance(it[1], tuple):
+        return ("zip", tuple(_itkey(x) for x in it[1]))
     return _vk(it)
 
 
@@ -1871,6 +1888,13 @@ def _range(I, a, k, e, env, ctx):
 @ext("builtins.enumerate")
 def _enumerate(I, a, k, e, env, ctx):
     return ("enumerate", a[0])
+
+
+@ext("builtins.zip")
+def _zip(I, a, k, e, env, ctx):
+    if a and all(isinstance(x, (Rat, list, tuple)) for x in a) and not k:
+        return ("zip", tuple(a))
+    return NotImplemented
 
 
 @ext("builtins.print")
